@@ -36,6 +36,12 @@ def run(ck, tier, seed):
         for i, u in enumerate(pseudos):
             base = lines[i % len(lines)][:6]
             extra.append(base[:2] + chr(u) + base[2:4] + chr(pseudos[(i + 1) % len(pseudos)]) + base[4:])
+        # characters beyond the BMP the font maps (format 12 cmap), on lines of their own and inside corpus lines
+        smp = [c for c, g in (corpus._cmap_chars(os.path.join(corpus.F, font)) or []) if c >= 0x10000][:40]
+        for i, u in enumerate(smp):
+            base = lines[(3 * i) % len(lines)][:5]
+            extra.append(base[:2] + chr(u) + base[2:] + chr(smp[(i + 7) % len(smp)]))
+            extra.append(chr(u) + chr(smp[(i + 1) % len(smp)]))
         tf_path = os.path.join(tmp, font + ".txt")
         open(tf_path, "w", encoding="utf-8").write("\n".join(extra * 3 + lines) + "\n")
         # labels: a name table in which every second feature label exists only under the Unicode platform
